@@ -90,6 +90,14 @@ EOT
   echo "selftest rewriter ok (repo tests pass on the instrumented copy: hooks nil, shuffled map order)"
 }
 
+# Unit tests of the machinery's own helpers (diagnoses of known findings ...), run
+# against the instrumented copy like everything else.
+selftest_units() {
+  local S="$1"
+  (cd "$S/sim" && go test -count=1 ./... > "$S/units.log" 2>&1) || { tail -30 "$S/units.log" >&2; echo "SELFTEST-FAILED units: the machinery's own unit tests fail" >&2; return 2; }
+  echo "selftest units ok ($(grep -c '^ok' "$S/units.log") packages with tests)"
+}
+
 # Determinism: N runs of every property, twice each, in separate processes at
 # GOMAXPROCS 1, 4 and 16; the per-run event-log hashes must be identical.
 selftest_determinism() {
@@ -122,6 +130,7 @@ case "$cmd" in
     # warm the -race build cache (std + engines) so that the C12 check builds quickly
     (cd "$S/sim" && go build -race -o "$S/simrun-race" ./cmd/simrun) > "$S/build-race.log" 2>&1 || { cat "$S/build-race.log" >&2; die2 "race build failed"; }
     selftest_rewriter "$S" || exit 2
+    selftest_units "$S" || exit 2
     selftest_determinism "$S" 12 || exit 2
     echo "setup ok"
     ;;
@@ -132,6 +141,7 @@ case "$cmd" in
     prepare "$S" || exit 2
     (cd "$S/sim" && go build -race -o "$S/simrun-race" ./cmd/simrun) > "$S/build-race.log" 2>&1 || { cat "$S/build-race.log" >&2; die2 "race build failed"; }
     selftest_rewriter "$S" || exit 2
+    selftest_units "$S" || exit 2
     selftest_determinism "$S" "${2:-40}" || exit 2
     echo "selftest ok"
     ;;
